@@ -81,13 +81,16 @@ TwiceShape(samples) ==
   THEN "repeat" ELSE "overlap"
 
 \* ---- completeness after Flush --------------------------------------------------------------------
-FrameIds(stream) == {stream[i].frame : i \in DOMAIN stream}
-FrameTagSet(stream, f) == {i \in DOMAIN stream : stream[i].frame = f}
-FrameFirst(stream, f) == CHOOSE i \in FrameTagSet(stream, f) : \A j \in FrameTagSet(stream, f) : i <= j
-FrameLast(stream, f)  == CHOOSE i \in FrameTagSet(stream, f) : \A j \in FrameTagSet(stream, f) : i >= j
-FrameTags(stream, f)  == [k \in 1..(FrameLast(stream, f) - FrameFirst(stream, f) + 1) |-> FrameFirst(stream, f) + k - 1]
+\* A frame is a maximal run of consecutive stream positions with one frame id (the sender numbers
+\* its frames; frames are contiguous in the stream).  A frame is named by its first position.
+RECURSIVE FirstOf(_, _)
+FirstOf(stream, p) == IF p = 1 \/ stream[p - 1].frame # stream[p].frame THEN p ELSE FirstOf(stream, p - 1)
+RECURSIVE LastOf(_, _)
+LastOf(stream, p) == IF p = Len(stream) \/ stream[p + 1].frame # stream[p].frame THEN p ELSE LastOf(stream, p + 1)
+FrameStarts(stream) == {p \in DOMAIN stream : FirstOf(stream, p) = p}
+FrameTags(stream, f) == [k \in 1..(LastOf(stream, f) - f + 1) |-> f + k - 1]
 \* the frame ends with a packet the depacketizer calls a partition tail
-Delimited(stream, f) == stream[FrameLast(stream, f)].tail
+Delimited(stream, f) == stream[LastOf(stream, f)].tail
 
 PushCount(pushes, tag) == Cardinality({i \in DOMAIN pushes : pushes[i].tag = tag})
 
@@ -96,10 +99,10 @@ PushCount(pushes, tag) == Cardinality({i \in DOMAIN pushes : pushes[i].tag = tag
 \* the change of timestamp tells the frame is over).  AnchorOf(p) is the first packet of the frame
 \* that p is needed for: p's own frame, or the preceding one if p is the packet that terminates it.
 AnchorOf(stream, p) ==
-  LET f == stream[p].frame IN
-  IF p = FrameFirst(stream, f) /\ p > 1 /\ ~Delimited(stream, stream[p - 1].frame)
-  THEN FrameFirst(stream, stream[p - 1].frame)
-  ELSE FrameFirst(stream, f)
+  IF FirstOf(stream, p) = p /\ p > 1 /\ ~stream[p - 1].tail
+  THEN FirstOf(stream, p - 1)
+  ELSE FirstOf(stream, p)
+Anchors(stream) == [p \in DOMAIN stream |-> AnchorOf(stream, p)]
 
 \* "loss-free stream reordered within maxLate", made precise so that no legitimate drop falls under
 \* it (a weaker premise, e.g. each *packet* less than maxLate late, lets the builder rightly give up a
@@ -120,20 +123,22 @@ StreamPremise(stream, M) ==
         stream[i].frame # stream[i + 1].frame => stream[i].ts # stream[i + 1].ts
 \* arrival part, per push: when q arrives, every packet p it could push out of the window (q is
 \* maxLate or more ahead of the first packet of the frame p is needed for) has arrived before
-ArrivalOK(stream, before, q, maxLate) ==
-  \A p \in DOMAIN stream : q - AnchorOf(stream, p) >= maxLate => p \in before
+\* (anchors = Anchors(stream), computed once per session)
+ArrivalOK(anchors, before, q, maxLate) ==
+  \A p \in DOMAIN anchors : q - anchors[p] >= maxLate => p \in before
 CompletenessPremise(stream, pushes, maxLate, delayOff, flushAt, lastPushAt, firstPopAt, M) ==
   /\ StreamPremise(stream, M)
   /\ delayOff
   /\ \A i \in DOMAIN pushes : Known(stream, pushes[i].tag)
   /\ \A tag \in DOMAIN stream : PushCount(pushes, tag) = 1
   /\ flushAt > lastPushAt /\ (firstPopAt = 0 \/ firstPopAt > flushAt)
-  /\ \A i \in DOMAIN pushes :
-        ArrivalOK(stream, {pushes[j].tag : j \in 1..(i - 1)}, pushes[i].tag, maxLate)
+  /\ LET anchors == Anchors(stream) IN
+     \A i \in DOMAIN pushes :
+        ArrivalOK(anchors, {pushes[j].tag : j \in 1..(i - 1)}, pushes[i].tag, maxLate)
 
 \* frames the builder can know to be complete: all but a last frame that no partition tail closes
 CompleteFrames(stream) ==
-  {f \in FrameIds(stream) : Delimited(stream, f) \/ FrameLast(stream, f) < Len(stream)}
+  {f \in FrameStarts(stream) : Delimited(stream, f) \/ LastOf(stream, f) < Len(stream)}
 Emitted(stream, samples, f) == \E i \in DOMAIN samples : samples[i].tags = FrameTags(stream, f)
 MissingFrames(stream, samples) == {f \in CompleteFrames(stream) : ~Emitted(stream, samples, f)}
 CompleteAfterFlush(stream, samples) == MissingFrames(stream, samples) = {}
